@@ -462,6 +462,79 @@ def fam_embedded(E, real=False):
     E.prove(lf is not None, 'environment-block-ends')
 
 
+def fam_abandoned(E, real=False):
+    """a native activity (or a process with a timeout) starts waiting for an event and gives up
+    at a symbolic date g; the event fails at a symbolic date u.  A waiter that is still there
+    receives the exception; if nobody waits any more the failure is unhandled and ends the run
+    with that exception - an abandoned wait must leave nothing behind in the event."""
+    u = E.num('u', 0, 15, real=real)
+    g = E.num('g', 0, 15, real=real)
+    w = E.num('w', 0, 5, real=real)
+    native = E.flag('native')
+    log = Log()
+    env = Environment()
+    ev = env.event()
+    err = UserErr('event failed')
+
+    def trigger():
+        yield env.timeout(u)
+        log('t', 'trigger')
+        ev.fail(err)
+
+    async def native_waiter():
+        await (time + w)
+        log('w', 'wait')
+        try:
+            async with usim.until(time + g):
+                await ev
+                log('w', 'got')
+        except UserErr as exc:
+            log('w', 'raised', exc is err)
+        log('w', 'left')
+        await (time + 40)
+
+    def process_waiter():
+        yield env.timeout(w)
+        log('w', 'wait')
+        try:
+            yield ev | env.timeout(g)
+            log('w', 'got')
+        except UserErr as exc:
+            log('w', 'raised', exc is err)
+        log('w', 'left')
+        yield env.timeout(40)
+
+    env.process(trigger())
+    if native:
+        env.schedule(native_waiter())
+    else:
+        env.process(process_waiter())
+    out = run_env(E, env, log)
+    tr = log.first('t', 'trigger')
+    if not E.prove(tr is not None and EQ(tr[2], u), 'trigger-happens-at-u'):
+        return
+    gone = w + g          # the date at which the waiter gives up
+    if LT(u, w):
+        # failed before anybody waited: unhandled at u
+        E.reach('failed-before-the-wait')
+        E.prove(out.exc is err, 'unhandled-failed-event-ends-the-run-with-its-exception',
+                ('%r', out.exc))
+    elif GT(u, gone):
+        E.reach('failed-after-the-wait-was-abandoned')
+        E.prove(out.exc is err, 'unhandled-failed-event-ends-the-run-with-its-exception',
+                ('the only waiter gave up at %r, the event failed at %r, run() ended with %r',
+                 gone, u, out.exc))
+        lf = log.first('w', 'left')
+        E.prove(lf is not None and EQ(lf[2], gone) and not log.has('w', 'raised'),
+                'abandoned-wait-ends-at-its-deadline')
+    elif GT(u, w) and LT(u, gone):
+        E.reach('failed-while-waited-for')
+        rs = log.first('w', 'raised')
+        E.prove(out.exc is None, 'handled-failure-does-not-end-the-run', ('%r', out.exc))
+        E.prove(rs is not None and EQ(rs[2], u) and rs[3] is True,
+                'waiter-receives-the-value-or-exception')
+
+
 def fam_queue_process(E, real=False):
     """a process receives from a native usim Queue by `yield queue` (a native awaitable) while a
     native producer puts two items and another process interrupts it at a symbolic date - also
@@ -556,6 +629,11 @@ FAMILIES = [
     Family('until_failing', fam_until, quick=dict(mode='failing-event'),
            thorough=dict(mode='failing-event'), reach=['failing'],
            bounds='env.run(until=event that fails)'),
+    Family('abandoned_wait', fam_abandoned, quick=dict(), thorough=dict(real=True),
+           reach=['failed-before-the-wait', 'failed-after-the-wait-was-abandoned',
+                  'failed-while-waited-for'],
+           bounds='one waiter (native activity in until(time + g), or process yielding '
+                  'event | timeout(g)) that may give up before the event fails at u'),
     Family('queue_process', fam_queue_process, quick=dict(), thorough=dict(real=True),
            reach=['interrupt-in-the-time-step-of-a-put'],
            bounds='a process receiving from a native Queue by `yield queue`, 2 puts, 2 interrupts '
